@@ -48,6 +48,8 @@ func runC05(c *Ctx) {
 	c.Rule("C05.R4", "scan loops cover `total` slots before returning nil", 4)
 	c.Rule("C05.R5", "a composite balancer returns no host only after its fallback was consulted", 3)
 	defer c05Composite(c)
+	c.Rule("C05.R6", "a new cluster (host set + balancer) becomes visible to lookups only after the update handler filled it", 2)
+	defer publishAfterInit(c, "C05.R6")
 	c.Assumptions = append(c.Assumptions,
 		"Health() observed true earlier on the path counts as healthy (a concurrent flip after the check is outside the clause)",
 		"no reflection/unsafe in the balancers",
